@@ -112,4 +112,7 @@ def run(ck, tier):
     from ..share import import_findings as _imp
     ck.rule('R9', 'the serial client discards stale input before every request on every framing (shared with C13 R5)')
     _imp(ck, 'C13', 'R9', ('R5',), 'noise or an abandoned reply left in the port shifts every later count-based read: the master never resynchronises')
+    from .. import strtypes as _st
+    ck.rule('R10', 'hexlify_packets, evaluated with the receive buffer on every reset / processing path outside any log-level guard, is total: what it joins is text')
+    ck.guard(_st.rule_join_total, ck, cx, 'R10', ('pymodbus.utilities.hexlify_packets',), 'resetFrame() raises before it clears the buffer: the backlog is never dropped and the serial handler dies in its own except branch')
     return cx.idx
